@@ -196,7 +196,13 @@ func smtLitOf(v string) string { return strings.TrimSpace(v) }
 
 // tryReplay runs the property's oracle harness on the real code.  It returns
 // true when a concrete failing input was found (recorded in rep).
+var noReplay bool
+
 func (e *Engine) tryReplay(prop string, o *Oblig, rep map[string]interface{}, replayDir string) bool {
+	if noReplay {
+		rep["replay"] = "replay search switched off for this run"
+		return false
+	}
 	work, _ := os.MkdirTemp("", "govc-replay-")
 	defer os.RemoveAll(work)
 	hints := modelHints(o, work)
